@@ -295,6 +295,9 @@ pub fn chain_space() -> Space<ChainSpec> {
                 ("excluded fd00::/8", NcSpec { permitted: vec![], excluded: vec![cidr(fd00(), 8)] }),
                 ("permitted dns + excluded sub", NcSpec { permitted: vec![SubtreeSpec::Dns("example.com".into())], excluded: vec![SubtreeSpec::Dns("bad.example.com".into())] }),
                 ("present but empty", NcSpec { permitted: vec![], excluded: vec![] }),
+                // the same subtree in both lists (excluded wins: no DNS name at all is allowed), next to a permitted subtree of another form
+                ("dns example.com permitted and excluded + permitted 10.0.0.0/8", NcSpec { permitted: vec![SubtreeSpec::Dns("example.com".into()), cidr(vec![10, 0, 0, 0], 8)], excluded: vec![SubtreeSpec::Dns("example.com".into())] }),
+                ("10.0.0.0/8 permitted and excluded + permitted dns example.com", NcSpec { permitted: vec![cidr(vec![10, 0, 0, 0], 8), SubtreeSpec::Dns("example.com".into())], excluded: vec![cidr(vec![10, 0, 0, 0], 8)] }),
                 ("permitted dns .example.com", NcSpec { permitted: vec![SubtreeSpec::Dns(".example.com".into())], excluded: vec![] }),
                 ("excluded dns .example.com", NcSpec { permitted: vec![], excluded: vec![SubtreeSpec::Dns(".example.com".into())] }),
                 ("permitted 10.1.2.3/32", NcSpec { permitted: vec![cidr(vec![10, 1, 2, 3], 32)], excluded: vec![] }),
@@ -448,6 +451,39 @@ pub fn run(prop: &str, tier: &str, replay: Option<&str>) -> i32 {
             ch.cas[1].win = c.4;
             ch.leaf_ekus = ekus[c.5].clone();
             ch.purpose = c.6;
+            judge(&ch, &pool)
+        });
+        rep.add(sec);
+    }
+    {
+        // full product: path length x key usages x inert fields on each CA x depth (a path length must be enforced
+        // whatever else the CA certificate carries; webpki does not look at CA key usages, OpenSSL does)
+        let iscas = [IsCaSpec::Unconstrained, IsCaSpec::Constrained(0), IsCaSpec::Constrained(1)];
+        let kus: Vec<Option<Vec<u8>>> = vec![None, Some(vec![5, 6]), Some(vec![0, 6]), Some(vec![6]), Some(vec![5]), Some(vec![0]), Some(vec![8])];
+        let mut cases = Vec::new();
+        for depth in 1..=2usize {
+            for r in iscas {
+                for i in iscas {
+                    for (rk, _) in kus.iter().enumerate() {
+                        for (ik, _) in kus.iter().enumerate() {
+                            for inert in 0..3u8 {
+                                cases.push((depth, r, i, rk, ik, inert));
+                            }
+                        }
+                    }
+                }
+            }
+        }
+        let sec = Section::new("product/path-length x key-usages x inert x depth", "complete product: depth 1..=2 x root path length (3) x intermediate path length (3) x root key usages (7 sets incl. none, without keyCertSign, decipherOnly alone) x intermediate key usages (7) x inert extension fields (3)").with_deadline(cap);
+        run::sweep_cases(&sec, &cases, &|c| format!("{:?}", c), &|c| {
+            let mut ch = ChainSpec::base();
+            ch.depth = c.0;
+            ch.cas[0].is_ca = c.1;
+            ch.cas[1].is_ca = c.2;
+            ch.cas[0].ku = kus[c.3].clone();
+            ch.cas[1].ku = kus[c.4].clone();
+            ch.cas[0].inert = c.5;
+            ch.cas[1].inert = c.5;
             judge(&ch, &pool)
         });
         rep.add(sec);
